@@ -563,3 +563,43 @@ func (s *Solver) oneShot() Result {
 	}
 	return res
 }
+
+// CrossCheck re-decides the current query (everything asserted in the open scopes) with the
+// other installed solvers in fresh processes and returns their verdicts.
+func (s *Solver) CrossCheck(ms int) map[string]Result {
+	var sb strings.Builder
+	sb.WriteString("(set-logic ALL)\n")
+	for _, sc := range s.lines {
+		for _, l := range sc {
+			sb.WriteString(l)
+			sb.WriteByte('\n')
+		}
+	}
+	sb.WriteString("(check-sat)\n")
+	out := map[string]Result{}
+	for _, kind := range []string{"z3", "z3-new", "cvc5"} {
+		if kind == s.kind {
+			continue
+		}
+		var args []string
+		if kind == "cvc5" {
+			args = []string{"--lang=smt2", fmt.Sprintf("--tlimit=%d", ms)}
+		} else {
+			args = []string{"-in", "-smt2", fmt.Sprintf("-t:%d", ms)}
+		}
+		cmd := exec.Command(kind, args...)
+		cmd.Stdin = strings.NewReader(sb.String())
+		raw, _ := cmd.Output()
+		res := RUnknown
+		for _, l := range strings.Split(string(raw), "\n") {
+			switch strings.TrimSpace(l) {
+			case "sat":
+				res = RSat
+			case "unsat":
+				res = RUnsat
+			}
+		}
+		out[kind] = res
+	}
+	return out
+}
